@@ -53,6 +53,10 @@ def stepLine (s : State) (line : String) : State × String :=
     match w.toNat?, parseInt? h with
     | some w, some h =>
       match step s (.ret w (some h)) with
+      | some (s1, .retry) =>                      -- a block of another height: treated as a failed fetch
+        match pickUntil s1 w 60 with
+        | some (s2, o) => (s2, showOut o)
+        | none => (s1, "not-enabled")
       | some (s1, o) => (s1, showOut o)
       | none => (s, "not-enabled")
     | _, _ => (s, "bad-op")
@@ -60,7 +64,7 @@ def stepLine (s : State) (line : String) : State × String :=
     let present := (s.arr.eraseDups).mergeSort (· ≤ ·)
     let tn := ",".intercalate (present.map fun p => s!"{p}:{s.taskNum p}")
     (s, if s.arr.isEmpty then "-" else s!"{showList s.arr} tn={tn}")
-  | ["fact", "shared-task-slice"] => (s, if workersShareTaskSlice then "1" else "0")
+  | ["fact", "worker-clones-list"] => (s, if workersCloneTaskList then "1" else "0")
   | ["stall"] => (s, if fetchHasDeadline then "bounded" else "unbounded")
   | _ => (s, "bad-op")
 
